@@ -185,3 +185,36 @@ Theorem C04_decision_is_source : forall (r c : Z) (nm0 nm1 : bool),
   extract_decision r c nm0 nm1 = extract_decision_src r c nm0 nm1.
 Proof. exact decision_is_source. Qed.
 Print Assumptions C04_decision_is_source.
+
+Require Import Proofs.SelectLocExtract.
+
+(* END TO END.  Frame.loc[rkey, ckey] / Frame[ckey] as the code runs them -- both label keys translated by
+   LocMap (column key first), then Frame._extract over the blocks -- equal the specification: positional
+   selection at the positions of the labels, for every block layout.  Guards: the two label-slice guards,
+   not both keys malformed, and the known finding C04-empty-columns-row-subset. *)
+Theorem C04_extract_loc_refines : forall (A L : Type) (leqb : L -> L -> bool) (rdt : list dtype -> dtype)
+  (as_z : L -> option Z),
+  (forall x y, leqb x y = true <-> x = y) ->
+  forall (f : mframe A L) (rkey ckey_ : lkey L),
+  wf_mframe leqb f -> lkey_dom rkey -> lkey_dom ckey_ ->
+  ((exists rk, M_loc_map leqb (mf_index f) rkey = Ok rk) \/
+   (forall ck, M_loc_map leqb (mf_columns f) ckey_ = Ok ck ->
+      exists cs, ckey_sel ck (Z.of_nat (length (mf_columns f))) = Ok cs)) ->
+  (forall rk ck, M_loc_map leqb (mf_index f) rkey = Ok rk -> M_loc_map leqb (mf_columns f) ckey_ = Ok ck ->
+     extract_dom (mf_rows f) (Z.of_nat (length (flatten (mf_blocks f)))) rk ck = true) ->
+  M_extract_loc leqb rdt as_z KMap KMap f rkey ckey_ = S_extract_loc leqb rdt (abs_frame f) rkey ckey_.
+Proof. exact @extract_loc_refines. Qed.
+Print Assumptions C04_extract_loc_refines.
+
+(* Series.loc / Series[]: the translated key handed to NumPy and to Index.iloc selects the labels' positions *)
+Theorem C04_series_loc_refines : forall (A L : Type) (leqb : L -> L -> bool) (as_z : L -> option Z),
+  (forall x y, leqb x y = true <-> x = y) ->
+  forall (s : sseries A L) (k : lkey L), lkey_dom k ->
+  M_series_loc leqb as_z KMap s k = S_series_loc leqb s k.
+Proof. exact @series_loc_refines. Qed.
+Print Assumptions C04_series_loc_refines.
+
+(* the label-equality hypothesis of the theorems above holds at the instance the correspondence evaluates *)
+Theorem C04_label_equality_at_val : forall x y : val, val_eqb x y = true <-> x = y.
+Proof. exact val_eqb_spec. Qed.
+Print Assumptions C04_label_equality_at_val.
